@@ -244,7 +244,7 @@ pub fn check_eval(tree: &AffTree<2>, x: &[f64], expect: Option<&[Q]>, tol: f64, 
 
 pub fn run_case(ctx: &Ctx, case: u64, ev: &mut Ev) {
     let mut rng = Rng::derive(ctx.seed, "C17", case);
-    rng.big = ctx.tier == crate::Tier::Thorough && rng.chance(0.2);
+    rng.big = crate::draw_big(ctx, &mut rng);
     let ks = kinds();
     // grid part: kind x dim (1..4 / 2..5) x row ; then random extras
     let grid = ks.len() * 4 * 4;
